@@ -9,7 +9,7 @@ def run(tier, seed):
     known = dict(common.Known().devs("C02"))
     live = specfam.live_spec_devs(check, vh, known, ["C02"])
     # verdict deviations of C01 that are live are the only other explanations accepted
-    c01 = schemafam.live_devs(check, vh, "Trace_Schema", common.Known().devs("C01"))
+    c01 = schemafam.live_devs(check, vh, "Trace_Schema", common.Known().devs("C01"), report=False)
     devs = sorted(set(live) | (set(c01) & set(live)))
     args = ["-seed", seed, "-bases", 5 if quick else 0, "-edits", 90 if quick else 400, "-double", 0.3, "-raw"]
     fails = specfam.run_spec(check, vh, "edits", args, ["C02"], devs, shards=8 if quick else 14)
